@@ -47,7 +47,7 @@ def run(chk, repo: Repo):
     chk.rule("C05-R2", "mutable parameters the log-density depends on ⊆ parameters the sampler depends on", floor=8)
     chk.rule("C05-R3", "Gaussian/GMRF solves: solver table, triangular orientation matches the guard, single right-hand side handled; the location is an additive, unscaled term of the draw", floor=4)
     chk.rule("C05-R4", "Distribution.sample: conditional refused before _sample; one draw -> CUQIarray(geometry), several -> Samples(geometry); not overridden; "
-                       "a result allocated with N columns has every column 0..N-1 written", floor=4)
+                       "a result allocated with N columns has every column 0..N-1 written; several draws reach the Samples collection exactly as _sample returned them", floor=4)
     chk.rule("C05-R5", "product-form families: size (N, dim) transposed (or (dim, N)); parameters not indexed by the sample-count variable", floor=8)
     dist = repo.cls(DIST)
     samplers = []
